@@ -18,7 +18,7 @@ TECHNIQUE = 'exhaustive window/slice/index enumeration per generated file agains
 RULE = ('files from vlib.model.gen_file (bias: many segments, no-data/unlisted segments, 1-4 chunks, lengths 0-5) incl. truncated copies; '
         'non-trivial = channel whose values span >=2 chunks or segments; distinct = per-channel tuple of (segment, chunk length) pieces + type')
 ASSUMPTIONS = ['read_data is only specified for offset >= 0 and length >= 0 or None']
-REQUIRED = ['cross_channel_indices', 'staggered_files', 'daqmx_files', 'daqmx_windows', 'daqmx_slices', 'slices_after_index', 'short_middle_files', 'long_files', 'windows', 'slices', 'indices', 'windows_crossing_boundary', 'index_errors_checked', 'step0_checked',
+REQUIRED = ['full_reads_overwritten_by_caller', 'cross_channel_indices', 'staggered_files', 'daqmx_files', 'daqmx_windows', 'daqmx_slices', 'slices_after_index', 'short_middle_files', 'long_files', 'windows', 'slices', 'indices', 'windows_crossing_boundary', 'index_errors_checked', 'step0_checked',
             'contract:channel._read_channel_data.len', 'truncated_files']
 N = {'quick': 640, 'thorough': 20000}
 STEPS = [None, 1, -1, 2, -2, 3, -3, 0]
@@ -256,6 +256,16 @@ def check_channel(ctx, case, segs, mode, ch, Rimg, R, n, bounds, tkind, rng, cut
     ctx.evaluation()
     shape = 'zero-length' if n == 0 else 'nonempty'
     info = lambda **kw: dict(kw, path=ch.path, n=n, mode=mode, cut=cut, segments=[s.describe() for s in segs][:6])
+    # ---- on a lazily opened file the caller owns what it was handed: a complete read whose result the caller then overwrites
+    #      must not change what later windows, slices and indices return
+    if mode == 'lazy' and n and tkind == 'num':
+        try:
+            for full in (ch.read_data(), ch[:]):
+                if C.img_equal(C.image(full), Rimg) and isinstance(full, np.ndarray) and full.dtype.kind in 'iuf' and full.flags.writeable:
+                    full[...] = 0
+                    ctx.count('full_reads_overwritten_by_caller')
+        except Exception as ex:
+            ctx.violation('window/lazy/full-read-raises/%s' % util.exc_key(ex), info(exc=util.exc_detail(ex)))
     # ---- windows
     if n <= 24:
         wins = [(o, l) for o in range(n + 3) for l in list(range(n + 3)) + [None]]
